@@ -340,6 +340,22 @@ def run_program(args):
     return code, out.getvalue()
 
 
+def run_program_module(args):
+    """The program given a module (as a project's own test runner script does): the tests are what
+    the module's load_tests hook returns, as it returns them."""
+    from functools import partial
+
+    out = io.StringIO()
+    try:
+        tt_run.TestProgram(module=_MOD, argv=["prog"] + args, testRunner=partial(tt_run.TestToolsTestRunner, stdout=out), stdout=out)
+        code = None
+    except SystemExit as e:
+        code = e.code
+    except Exception as e:
+        code = "raised %s: %s" % (type(e).__name__, e)
+    return code, out.getvalue()
+
+
 def check_run(tree, res):
     problems = []
     holder = {}
@@ -372,6 +388,16 @@ def check_run(tree, res):
                 problems.append(("run-load-list", "--load-list %r ran %r, expected %r" % (sorted(S), list(RAN), want)))
             if code not in (False, 0):
                 problems.append(("run-exit", "--load-list %r exit status %r although all tests pass" % (sorted(S), code)))
+            if ending == "\n":
+                _MOD.load_tests = lambda loader, standard_tests, pattern: test_suite()
+                try:
+                    del RAN[:]
+                    code, text = run_program_module(["--load-list", path])
+                finally:
+                    del _MOD.load_tests
+                res.evaluations += 1
+                if RAN != want or code not in (False, 0):
+                    problems.append(("run-load-list", "TestProgram(module=<load_tests returns the tree>, --load-list %r) ran %r (exit status %r), expected %r" % (sorted(S), list(RAN), code, want)))
     finally:
         try:
             os.remove(os.path.join(scratch, "ids"))
